@@ -404,12 +404,17 @@ func runC03(w *World, r *Report, tier string) {
 					if !pathAsserts(path, func(c ssa.Value, truth bool) bool { return assertsNonNil(c, truth, ev) }) {
 						return
 					}
+					// one error variable shared by two calls (`if err == nil { _, err = Write() }; if err != nil`): the path that
+					// takes the failure edge of this call and then the nil edge of the merged variable does not exist
+					if pathAsserts(path, func(c ssa.Value, truth bool) bool { return assertsNil(c, truth, ev) }) {
+						return
+					}
 					nFail++
 					rec := false
 					forPath(path, func(i int, x ssa.Instruction) {
 						if st, ok := x.(*ssa.Store); ok {
 							if fa, ok := st.Addr.(*ssa.FieldAddr); ok && fieldOfAddr(fa) == fErr {
-								v := rvI(st.Val, i)
+								v := resolveOn(st.Val, i, path)
 								switch y := v.(type) {
 								case *ssa.MakeInterface:
 									rec = true
